@@ -1275,7 +1275,10 @@ pub fn mini_c14(ctx: &Ctx, scale: u64, out: &mut Outcome) {
             let mut fb_b = FrameBuf::with_size(channels, cap).map_err(|e| format!("{e}"))?;
             let mut ctx_i = Context::new(bps, channels);
             let mut ctx_b = Context::new(bps, channels);
-            for len in [cap, rng.usize_below(cap + 1), rng.usize_below(9)] {
+            // full-then-shorter on even cases; growing (small, tiny, full) on odd ones, so that any
+            // lazily sized staging storage has to grow after it was used
+            let lens = if idx % 2 == 0 { [cap, rng.usize_below(cap + 1), rng.usize_below(9)] } else { [1 + rng.usize_below(cap / 4), rng.usize_below(5), cap] };
+            for len in lens {
                 let data: Vec<i32> = (0..len * channels).map(|_| match rng.usize_below(4) { 0 => lo as i32, 1 => hi as i32, _ => rng.range(lo, hi) as i32 }).collect();
                 let by = gen::to_le_bytes(&data, bytes);
                 fb_i.fill_interleaved(&data).map_err(|e| format!("{e}"))?;
